@@ -965,5 +965,5 @@ M('c01_apply_many_stops_at_self', ['C01'], ['C01-R5'], 'apply_many stops process
    '                self.handle_self_update(update.incarnation(), update.state(), &mut runtime)?;\n                break;\n            } else if self.identity.addr() == update.id().addr() {'))
 M('c07_reader_rejects_bare_count', ['C07'], ['C07-R5'], 'a datagram ending right after an empty member count is rejected',
   (LIB, 'if remaining == 1 || (header.message == Message::Announce && remaining > 0) {', 'if remaining <= 2 && remaining > 0 || (header.message == Message::Announce && remaining > 0) {'))
-M('c07_custom_min_size_raised', ['C07', 'C16'], ['C07-R5'], 'one-byte custom items are rejected by the reader',
+M('c07_custom_min_size_raised', ['C07'], ['C07-R5'], 'one-byte custom items are rejected by the reader',
   (LIB, 'if !data.is_empty() && data.len() < 3 {', 'if !data.is_empty() && data.len() < 4 {'))
